@@ -23,7 +23,8 @@ RULE = ('metamorphic: one server byte stream (valid C01 streams, C04 streams '
 SHRINK_LISTS = [('cutsets',), ('cutsets', '*'), ('bcase', 'items'),
                 ('bcase', 'trailing')]
 EXPECTED_PROBES = ['cut_inside_header', 'cut_inside_reply', 'one_byte_delivery',
-                   'cut_inside_utf8_char', 'variant_runs']
+                   'cut_inside_utf8_char', 'variant_runs',
+                   'other_connection_interleaved']
 
 BASES = ['C01', 'C04', 'C05', 'C06', 'C10']
 USABLE = {'C01': ['seeded'], 'C04': ['seeded'], 'C05': ['seeded'],
@@ -119,6 +120,12 @@ def make_case(family, i, rng, tier):
                 else 'passive',
                 'k': 8 if tier == 'quick' else 16,
                 'cs_seed': rng.getrandbits(32)}
+        if rng.random() < 0.25:
+            # a second, unrelated connection of the same process is being
+            # read between the reads of this one (seeded interleaving)
+            case['other'] = {'order': [rng.randrange(2) for _ in range(
+                rng.choice([2, 3, 5, 8]))] + [0, 1],
+                'kind': rng.choice(['text', 'text', 'binary', 'mixed'])}
         return case
     if family == 'short_exhaustive':
         items = _small_items(rng)
@@ -214,6 +221,49 @@ def cutsets_for(case, total, rlen, data):
     return sets
 
 
+def _other_scenario(kind):
+    """The other connection: non-ASCII text / binary / fragments, delivered
+    in 3-byte reads (every read ends inside a character or a header)."""
+    frames = b''
+    for k in range(12):
+        if kind == 'binary' or (kind == 'mixed' and k % 2):
+            frames += peer.enc_frame(2, bytes([0xf0 + k % 8, 0x9f, 0x80]) * 5)
+        else:
+            frames += peer.enc_frame(1, (u'\u20ac\U0001F600\u00e9 %d ' % k
+                                         ).encode('utf-8') * 2,
+                                     fin=1)
+        if k % 4 == 1:
+            # (no Pings: the other connection must not write, its masking
+            # keys would come out of the same seeded stream)
+            frames += peer.enc_frame(1, b'part \xe2', fin=0) + \
+                peer.enc_frame(10, b'p') + \
+                peer.enc_frame(0, b'\x82\xac end', fin=1)
+    reply = S.reply_tmpl()
+    total = ST.reply_len(reply) + len(frames)
+    step = {'op': 'reply', 'tmpl': (reply + frames).hex(), 'accept': 'ok',
+            'cuts': list(range(3, total, 3)), 'gaps': [4001]}
+    return {'url': 'ws://other.test/', 'connect': {'ping_rate': 0},
+            'conns': [{'server': [{'op': 'await_request'}, step,
+                                  S.eof(after=1000)]}]}
+
+
+def _run(sc, case):
+    other = case.get('other')
+    if not other:
+        return netsim.run(sc)
+    # the reads of this connection are 15 ms apart and its poll interval is
+    # 10 ms: it yields Poll between two reads, which is when the consumer
+    # advances the other connection
+    sc = copy.deepcopy(sc)
+    sc.setdefault('connect', {})['poll'] = 0.01
+    st = sc['conns'][0]['server'][1]
+    if st.get('cuts'):
+        st['gaps'] = [15001]
+    trs = netsim.run_multi(netsim.pair_scenario(
+        sc, _other_scenario(other['kind']), other['order']))
+    return trs[0]
+
+
 def _obs(tr):
     evs = [e.snap for e in tr.events if e.name != 'poll']
     outs = [bytes(s.out_bytes) for s in tr.world.socks]
@@ -237,7 +287,7 @@ def execute(case):
     total = len(data)
     step['cuts'] = []
     step['gaps'] = [0]
-    ref = netsim.run(sc)
+    ref = _run(sc, case)
     robs = _obs(ref)
     names = ref.names()
     h = [ref.digest()]
@@ -249,7 +299,9 @@ def execute(case):
         st2 = sc2['conns'][0]['server'][1]
         st2['cuts'] = cs
         st2['gaps'] = [0]
-        tr = netsim.run(sc2)
+        if case.get('other') and len(cs) > 300:
+            continue
+        tr = _run(sc2, case)
         nvar += 1
         h.append(tr.digest())
         res.sim_us += tr.world.now
@@ -272,6 +324,8 @@ def execute(case):
                     '%s %s' % (tr.hang, tr.escaped))
             break
     res.stats['probe:variant_runs'] += nvar
+    if case.get('other'):
+        res.stats['probe:other_connection_interleaved'] += 1
     frames, _ = peer.decode_frames(data, rlen)
     for f in frames[:50]:
         if f.opcode in (0, 1) and any(b >= 0x80 for b in f.payload):
